@@ -133,3 +133,84 @@ package raft
 //@   ensures #no-overwrite [C18] forall p int :: old(u.entries.off) <= p && p < old(u.entries.off) + old(len(u.entries)) ==> elem(old(u.entries), p) == old(elem(u.entries, p))
 //@   ensures #snapshot-kept u.snapshot == old(u.snapshot) && u.snapshotInProgress == old(u.snapshotInProgress)
 //@   ensures #wf wf_unstable(u)
+
+//@ -- ------------------------------------------------------------------------------------------
+//@ -- storage.go: MemoryStorage against the abstract log (off = ents[0].Index is the compaction point,
+//@ -- entries off+1 .. off+len-1 are available, term is known from off on).
+
+//@ pred wf_ms(ms *MemoryStorage) := ms != nil && len(ms.ents) >= 1 && entriesFrom(ms.ents, eindex(ms.ents[0]))
+//@     && eindex(ms.ents[0]) + len(ms.ents) < 9223372036854775808
+//@ spec ms_off(ms *MemoryStorage) uint64 := eindex(ms.ents[0])
+//@ spec ms_last(ms *MemoryStorage) uint64 := eindex(ms.ents[0]) + len(ms.ents) - 1
+//@ spec ms_ent(ms *MemoryStorage, i int) *pb.Entry := ms.ents[i - eindex(ms.ents[0])]
+//@ pred ms_log_unchanged(ms *MemoryStorage) := ms.ents == old(ms.ents)
+
+//@ func raft.MemoryStorage.lastIndex [C18]
+//@   pure
+//@   requires wf_ms(ms)
+//@   ensures result == ms_last(ms)
+
+//@ func raft.MemoryStorage.firstIndex [C18]
+//@   pure
+//@   requires wf_ms(ms)
+//@   ensures result == ms_off(ms) + 1
+
+//@ func raft.MemoryStorage.FirstIndex [C18]
+//@   requires wf_ms(ms)
+//@   frame raft.MemoryStorage: ms
+//@   ensures #view [C18] result0 == ms_off(ms) + 1 && result1 == nil && ms_log_unchanged(ms)
+
+//@ func raft.MemoryStorage.LastIndex [C18]
+//@   requires wf_ms(ms)
+//@   frame raft.MemoryStorage: ms
+//@   ensures #view [C18] result0 == ms_last(ms) && result1 == nil && ms_log_unchanged(ms)
+
+//@ func raft.MemoryStorage.Term [C18 C14]
+//@   requires wf_ms(ms)
+//@   frame raft.MemoryStorage: ms
+//@   ensures #compacted [C18] i < ms_off(ms) ==> result0 == 0 && result1 == ErrCompacted
+//@   ensures #unavailable [C18] i > ms_last(ms) ==> result0 == 0 && result1 == ErrUnavailable
+//@   ensures #term [C18] ms_off(ms) <= i && i <= ms_last(ms) ==> result1 == nil && result0 == eterm(ms_ent(ms, i))
+//@   ensures #unchanged ms_log_unchanged(ms)
+
+//@ func raft.MemoryStorage.Entries [C18 C16 C14]
+//@   requires wf_ms(ms)
+//@   requires #usage [C14] lo <= hi && hi <= ms_last(ms) + 1
+//@   frame raft.MemoryStorage: ms
+//@   ensures #compacted [C18] lo <= ms_off(ms) ==> isnil(result0) && result1 == ErrCompacted
+//@   ensures #only-dummy [C18] lo > ms_off(ms) && len(ms.ents) == 1 ==> isnil(result0) && result1 == ErrUnavailable
+//@   ensures #window [C18] lo > ms_off(ms) && len(ms.ents) > 1 ==> result1 == nil && result0.arr == ms.ents.arr && result0.off == ms.ents.off + (lo - ms_off(ms))
+//@        && len(result0) <= hi - lo && (lo < hi ==> len(result0) >= 1) && cap(result0) == len(result0)
+//@   ensures #budget [C16 C18] lo > ms_off(ms) && len(ms.ents) > 1 ==> (len(result0) <= 1 || sumsize(result0, len(result0)) <= maxSize)
+//@   ensures #maximal [C16 C18] lo > ms_off(ms) && len(ms.ents) > 1 ==> (len(result0) == hi - lo || sumsize(ms.ents[lo - ms_off(ms):], len(result0) + 1) > maxSize)
+//@   ensures #unchanged ms_log_unchanged(ms)
+
+//@ func raft.MemoryStorage.Append [C18 C14]
+//@   requires wf_ms(ms)
+//@   requires #contiguous len(entries) > 0 ==> contiguous(entries) && eindex(entries[0]) + len(entries) < 9223372036854775808
+//@   requires #no-gap [C14] len(entries) > 0 ==> eindex(entries[0]) <= ms_last(ms) + 1
+//@   frame raft.MemoryStorage: ms
+//@   ensures #noop [C18] len(entries) == 0 || old(eindex(entries[0])) + len(entries) - 1 < old(ms_off(ms)) + 1 ==> ms_log_unchanged(ms)
+//@   ensures #off-kept [C18] ms_off(ms) == old(ms_off(ms))
+//@   ensures #last [C18] len(entries) > 0 && old(eindex(entries[0])) + len(entries) - 1 >= old(ms_off(ms)) + 1 ==> ms_last(ms) == old(eindex(entries[0])) + len(entries) - 1
+//@   ensures #kept [C18] forall p int, q int :: len(entries) > 0 && ms.ents.off <= p && p < ms.ents.off + (old(eindex(entries[0])) - old(ms_off(ms))) && p < ms.ents.off + len(ms.ents)
+//@        && q == old(ms.ents.off) + (p - ms.ents.off) ==> elem(ms.ents, p) == old(elem(ms.ents, q))
+//@   ensures #appended [C18] forall p int, q int :: len(entries) > 0 && old(eindex(entries[0])) + len(entries) - 1 >= old(ms_off(ms)) + 1
+//@        && ms.ents.off + max(old(eindex(entries[0])), old(ms_off(ms)) + 1) - old(ms_off(ms)) <= p && p < ms.ents.off + len(ms.ents)
+//@        && q == entries.off + ((p - ms.ents.off) + old(ms_off(ms)) - old(eindex(entries[0]))) ==> elem(ms.ents, p) == old(elem(entries, q))
+//@   ensures #no-overwrite [C18] forall p int :: old(ms.ents.off) <= p && p < old(ms.ents.off) + old(len(ms.ents)) ==> elem(old(ms.ents), p) == old(elem(ms.ents, p))
+//@   ensures #wf wf_ms(ms) && result == nil
+
+//@ func raft.MemoryStorage.Compact [C18 C14]
+//@   requires wf_ms(ms)
+//@   requires #usage [C14] compactIndex <= ms_last(ms)
+//@   frame raft.MemoryStorage: ms
+//@   ensures #stale [C18] compactIndex <= old(ms_off(ms)) ==> result == ErrCompacted && ms_log_unchanged(ms)
+//@   ensures #compacted-ok [C18] compactIndex > old(ms_off(ms)) ==> result == nil
+//@   ensures #compacted-off [C18] compactIndex > old(ms_off(ms)) ==> ms_off(ms) == compactIndex
+//@   ensures #compacted-last [C18] compactIndex > old(ms_off(ms)) ==> ms_last(ms) == old(ms_last(ms))
+//@   ensures #compacted-term [C18] compactIndex > old(ms_off(ms)) ==> eterm(ms.ents[0]) == old(eterm(ms_ent(ms, compactIndex)))
+//@   ensures #kept [C18] forall p int, q int :: compactIndex > old(ms_off(ms)) && ms.ents.off + 1 <= p && p < ms.ents.off + len(ms.ents)
+//@        && q == old(ms.ents.off) + (p - ms.ents.off) + (compactIndex - old(ms_off(ms))) ==> elem(ms.ents, p) == old(elem(ms.ents, q))
+//@   ensures #no-overwrite [C18] forall p int :: old(ms.ents.off) <= p && p < old(ms.ents.off) + old(len(ms.ents)) ==> elem(old(ms.ents), p) == old(elem(ms.ents, p))
+//@   ensures #wf wf_ms(ms)
